@@ -16,6 +16,33 @@ Definition before_eqb (a b : before) : bool :=
   | _, _ => false
   end.
 
+Definition before_class (b : before) : N :=
+  match b with BServfail => 0 | BDrop => 1 | BRefused => 2 | BContinue _ => 3 end.
+
+(** In a history the cache is not inspected after a hook (a read would
+    change the usage order): only the outcome class is compared there. *)
+Definition hobs_eqb (a b : hobs) : bool :=
+  match a, b with
+  | OBefore x, OBefore y => before_class x =? before_class y
+  | OInitial x, OInitial y => eqb_bytes x y
+  | _, _ => false
+  end.
+
+Definition mk_ctx (p : proto) (sni : option bytes) (req : option (bytes * option bytes * bytes))
+    (ip : option addr) (q : option (bytes * N)) (rid : N) : dnsctx :=
+  mkCtx p sni (option_map (fun r => mk_doh (fst (fst r)) (snd (fst r)) (snd r)) req) ip q rid.
+
+Definition evict_srv : bytes := (100 :: 110 :: 115 :: 46 :: 101 :: 120 :: 97 :: 109 :: 112 :: 108 :: 101 :: nil).  (* dns.example *)
+Definition evict_ctx (rid : N) : dnsctx :=
+  mkCtx PTLS (Some (107 :: 105 :: 100 :: 46 :: evict_srv)) None
+        (Some (mkAddr V4 167772161 nil)) None rid.           (* kid.dns.example from 10.0.0.1 *)
+
+Definition evict_read (cap n : N) : bytes :=
+  let a := new_access nil nil nil in
+  let t := mkTlsConf evict_srv false in
+  let ops := List.map (fun i => HBefore (evict_ctx (N.of_nat i + 2))) (List.seq 0 (N.to_nat n)) in
+  snd (initial_read (fst (run_hist cap a t (fst (before_step cap a t (evict_ctx 1) nil)) ops)) 1).
+
 Inductive case :=
   (* IsBlockedClient: configured lists, address (None = zero Addr), ClientID;
      observed decision and which item the returned rule text names *)
@@ -31,7 +58,20 @@ Inductive case :=
      (0 none, 1 REFUSED, 2 SERVFAIL, 3 answered) and number of handler runs *)
   | CWire (allowed blocked : list entry) (hosts : list rule) (p : proto)
           (cid : option bytes) (ip : option addr) (q : option (bytes * N))
-          (obs_reply : N) (obs_runs : N).
+          (obs_reply : N) (obs_runs : N)
+  (* HandleBefore on a full context (ClientID extraction inside): configured
+     server name, strict flag, the context; observed outcome (for a request
+     let through: the cache entry under its request id) *)
+  | CCtx (allowed blocked : list entry) (hosts : list rule) (srv : bytes) (strict : bool)
+         (x : dnsctx) (obs : before)
+  (* a history of HandleBefore calls and processInitial reads on one server
+     with a ClientID cache of [cap] entries; observed: per step the outcome
+     class / the ClientID read, and the final number of cache entries *)
+  | CHist (cap : N) (allowed blocked : list entry) (hosts : list rule) (srv : bytes) (strict : bool)
+          (ops : list hop) (obs : list hobs) (obs_count : N)
+  (* the server's own cache (capacity [cap]): request 1 is admitted with
+     ClientID "kid", then [n] more such requests, then request 1 is read *)
+  | CEvict (cap n : N) (obs : bytes).
 
 Definition count_handler (st : N) (_ : unit) : N * unit := (st + 1, tt).
 
@@ -50,6 +90,12 @@ Definition case_ok (c : case) : bool :=
   | CWire al bl hosts p cid ip q r n =>
       let '(st, _, rep) := serve count_handler (new_access al bl hosts) p cid ip q nil 0 tt in
       (reply_class rep =? r) && (st =? n)
+  | CCtx al bl hosts srv strict x obs =>
+      before_eqb (handle_before_ctx (new_access al bl hosts) (mkTlsConf srv strict) x) obs
+  | CHist cap al bl hosts srv strict ops obs n =>
+      let '(c, o) := run_hist cap (new_access al bl hosts) (mkTlsConf srv strict) nil ops in
+      eqb_list hobs_eqb o obs && (N.of_nat (length c) =? n)
+  | CEvict cap n obs => eqb_bytes (evict_read cap n) obs
   end.
 
 Definition mismatches := Base.Run.mismatches case_ok.
@@ -58,11 +104,16 @@ Definition explain (c : case) :=
   match c with
   | CDecide al bl ip id _ _ =>
       let r := is_blocked_client (new_access al bl nil) ip id in
-      (fst r, snd r, BDrop)
+      (fst r, snd r, BDrop, @nil hobs)
   | CHost hosts host qt _ =>
-      (is_blocked_host (new_access nil nil hosts) host qt, RkNone, BDrop)
+      (is_blocked_host (new_access nil nil hosts) host qt, RkNone, BDrop, nil)
   | CBefore al bl hosts p cid ip q _ =>
-      (false, RkNone, handle_before (new_access al bl hosts) p cid ip q)
+      (false, RkNone, handle_before (new_access al bl hosts) p cid ip q, nil)
   | CWire al bl hosts p cid ip q _ _ =>
-      (false, RkNone, handle_before (new_access al bl hosts) p cid ip q)
+      (false, RkNone, handle_before (new_access al bl hosts) p cid ip q, nil)
+  | CCtx al bl hosts srv strict x _ =>
+      (false, RkNone, handle_before_ctx (new_access al bl hosts) (mkTlsConf srv strict) x, nil)
+  | CHist cap al bl hosts srv strict ops _ _ =>
+      (false, RkNone, BDrop, snd (run_hist cap (new_access al bl hosts) (mkTlsConf srv strict) nil ops))
+  | CEvict cap n _ => (false, RkNone, BDrop, OInitial (evict_read cap n) :: nil)
   end.
